@@ -21,7 +21,15 @@ func sdStages(props string, quickChildren, quickCases, thChildren, thCases int) 
 	}
 }
 
-var plans = map[string]Plan{
+var plans = map[string]Plan{}
+
+func init() {
+	for k, v := range storePlans {
+		plans[k] = v
+	}
+}
+
+var storePlans = map[string]Plan{
 	"C01": {Prop: "C01", Level: "exploration",
 		Rule:        "seeded histories of batches/transactions/reader steps over 3-5 ids in 2-3 datasets, compared with the reference model after every op (listing in one call and paged 1,2,3,7; scoped and unscoped lookups of every pool id). Distinct = hash of the history; non-trivial = the history overwrites an existing id AND contains an un-delete, an in-batch repeat, the same id in two datasets, or an equal-serialized-length pair",
 		Assumptions: assumeStore,
